@@ -64,7 +64,7 @@ class Writer:
             i += k
 
     async def drain(self):
-        pass
+        await asyncio.sleep(0)      # a reader that is not infinitely fast: the sending task yields here
 
     def close(self):
         if not self.closed:
@@ -159,39 +159,53 @@ def run_case(c):
                           "clients": [public_view(cl) for cl in s.clients],
                           "conn_kinds": [[list(cn.kinds) for cn in cl._conns] for cl in s.clients]})
 
+        async def perform(op):
+            if op[0] == "burst":
+                for sub in op[1]:
+                    await perform(sub)           # back to back, nothing is allowed to settle in between
+            elif op[0] == "drv":
+                d, k = s.devs[op[1]]
+                drvimpl.apply_op(d, k, op[2])
+            elif op[0] == "handshake":
+                cl = s.clients[op[1]]
+                if c["clients"][op[1]]["kind"] == "net" and not cl._started:
+                    cl._started = True
+                    await cl.start()
+                else:
+                    cl.handshake()
+            elif op[0] == "enable":
+                cl = s.clients[op[1]]
+                msg = EnableBLOB(device=op[3], value=op[4])
+                if c["clients"][op[1]]["kind"] == "net":
+                    (cl.control_connection_handler if op[2] == "ctl" else cl.blob_connection_handler).send_message(msg)
+                else:
+                    cl.send_message(msg)
+            elif op[0] == "write":
+                cl = s.clients[op[1]]
+                vec = cl[op[2]][op[3]]
+                kind = type(vec).__name__.replace("Vector", "")
+                for en, x in op[4]:
+                    vec[en].value = py_write_value(kind, x)
+                vec.submit()
+
+        def brief(op):
+            if op[0] == "burst":
+                return ["burst", [brief(o) for o in op[1]]]
+            if op[0] == "write" and any(isinstance(x, list) and len(x[0]) > 64 for _, x in op[4]):
+                return [op[0], op[1], op[2], op[3], "..."]
+            if op[0] == "drv" and op[2][0] == "assign" and isinstance(op[2][3], list) and len(op[2][3][0]) > 64:
+                return ["drv", op[1], ["assign", op[2][1], op[2][2], "... %d bytes" % len(op[2][3][0])]]
+            return op
+
         for op in c["ops"]:
             raised = None
             del Activity.long[:]
             try:
-                if op[0] == "drv":
-                    d, k = s.devs[op[1]]
-                    drvimpl.apply_op(d, k, op[2])
-                elif op[0] == "handshake":
-                    cl = s.clients[op[1]]
-                    if c["clients"][op[1]]["kind"] == "net" and not cl._started:
-                        cl._started = True
-                        await cl.start()
-                    else:
-                        cl.handshake()
-                elif op[0] == "enable":
-                    cl = s.clients[op[1]]
-                    msg = EnableBLOB(device=op[3], value=op[4])
-                    if c["clients"][op[1]]["kind"] == "net":
-                        (cl.control_connection_handler if op[2] == "ctl" else cl.blob_connection_handler).send_message(msg)
-                    else:
-                        cl.send_message(msg)
-                elif op[0] == "write":
-                    cl = s.clients[op[1]]
-                    vec = cl[op[2]][op[3]]
-                    kind = type(vec).__name__.replace("Vector", "")
-                    for en, x in op[4]:
-                        vec[en].value = py_write_value(kind, x)
-                    vec.submit()
+                await perform(op)
             except Exception as e:  # noqa
                 raised = "%s: %s" % (type(e).__name__, str(e)[:120])
             ok = await s.settle()
-            snap(op if op[0] != "write" or not any(isinstance(x, list) and len(x[0]) > 64 for _, x in op[4]) else [op[0], op[1], op[2], op[3], "..."],
-                 raised, ok)
+            snap(brief(op), raised, ok)
         alive = [[not cn.server_task.done() for cn in cl._conns] for cl in s.clients]
         for cl in s.clients:
             for cn in cl._conns:
